@@ -15,6 +15,7 @@ pub mod p09;
 pub mod p10;
 pub mod p11;
 pub mod p15;
+pub mod p16;
 pub mod p17;
 pub mod p18;
 pub mod p20;
@@ -57,6 +58,7 @@ pub fn run_property(world: &World, ctx: &mut Ctx) -> Option<Value> {
         "C11" => p11::run(world, ctx),
         "C09" => p09::run(world, ctx, ctx.dump.clone().as_deref()),
         "C15" => p15::run(world, ctx),
+        "C16" => p16::run(world, ctx),
         "C17" => p17::run(world, ctx),
         "C18" => p18::run(world, ctx),
         "C20" => p20::run(world, ctx),
@@ -106,6 +108,7 @@ pub fn replay_case(ctx: &mut Ctx, gi: &GInfo, rule: usize, doc: &Value) -> Optio
         "C10" => p10::check_input(ctx, gi, rule, input),
         "C11" => p11::replay(ctx, gi, rule, doc),
         "C15" => p15::check_input(ctx, gi, rule, input),
+        "C16" => p16::check_input(ctx, gi, rule, input),
         "C17" => p17::replay(ctx, gi, doc),
         "C18" => p18::replay(ctx, gi, rule, doc),
         _ => return None,
